@@ -15,7 +15,9 @@ for p in props:
     pid = p["id"]
     try:
         m = importlib.import_module("props." + pid.lower())
-    except ModuleNotFoundError:
+    except ModuleNotFoundError as e:
+        if e.name != "props." + pid.lower():
+            raise SystemExit("run with /venv/bin/python (cannot import %s)" % e.name)
         na.append({"property_id": pid, "reason": "check not built yet in this commit (model and harness under construction)"})
         continue
     if not getattr(m, "THEOREMS", []):
